@@ -22,7 +22,7 @@
    1 + 1 <> 0 and "one coefficient row per exponent" ([wf_coeffs]) for both shells. *)
 From Coq Require Import List Arith Lia Field Bool.
 From GB Require Import Base.Field Base.FNum Base.Tables Gauss.Moment1D Gauss.Poly3 Model.Shell Model.MomentInt
-  Model.Overlap Proofs.CoreSumP Proofs.CoreBlockP Proofs.RigidP Proofs.RotationP.
+  Model.Overlap Model.DiffOp Proofs.CoreSumP Proofs.CoreBlockP Proofs.CoreDiffP Proofs.RigidP Proofs.RotationP.
 Import ListNotations.
 
 (* ---- default_comps l lists every exponent triple of degree l exactly once ---- *)
@@ -220,7 +220,20 @@ Lemma fsum_map_scale {A} c (g : A -> F) (L : list A) :
 Proof. induction L as [|a L IH]; cbn [map FNum.fsum fold_right]; [ring|].
   fold (fsum (map g L)) (fsum (map (fun i => c * g i) L)). rewrite <- IH. ring. Qed.
 
-(* GENERAL ROTATIONS, overlap of two primitives, matrix form: the representation matrices on both indices *)
+(* from the entries of (R^T u)^a to the collected matrix, for any pair of index-pair functions *)
+Lemma matrix_form R la lb (P P' : comp -> comp -> F) ja jb :
+  In ja (default_comps la) -> In jb (default_comps lb) ->
+  Jsum K (fun a' => Jsum K (fun b' => P' a' b') (rot_expand K R jb)) (rot_expand K R ja) = P ja jb ->
+  fsum (map (fun ia => fsum (map (fun ib => rep_mat K R ia ja * rep_mat K R ib jb * P' ia ib)
+    (default_comps lb))) (default_comps la)) = P ja jb.
+Proof.
+  intros Hja Hjb <-.
+  rewrite (Jsum_rot_expand K Kf _ R la ja Hja). apply fsum_map_ext. intros ia _.
+  rewrite (Jsum_rot_expand K Kf _ R lb jb Hjb), fsum_map_scale. apply fsum_map_ext. intros ib _. ring.
+Qed.
+
+(* GENERAL ROTATIONS, overlap / kinetic energy of two primitives, matrix form: the representation matrices on both
+   indices *)
 Theorem overlap_prim_rotation_matrix R la lb sa sb ja jb alpha beta :
   orthogonal K R -> psum K alpha beta <> 0 ->
   In ja (default_comps la) -> In jb (default_comps lb) ->
@@ -231,9 +244,23 @@ Theorem overlap_prim_rotation_matrix R la lb sa sb ja jb alpha beta :
   = ovl_prim K sa sb ja jb alpha beta.
 Proof.
   intros HO Hp Hja Hjb.
-  rewrite <- (overlap_prim_rotation_covariant K Kf Hexp R sa sb ja jb alpha beta HO Hp).
-  rewrite (Jsum_rot_expand K Kf _ R la ja Hja). apply fsum_map_ext. intros ia _.
-  rewrite (Jsum_rot_expand K Kf _ R lb jb Hjb), fsum_map_scale. apply fsum_map_ext. intros ib _. ring.
+  apply (matrix_form R la lb (fun a b => ovl_prim K sa sb a b alpha beta)
+           (fun a b => ovl_prim K (rot_shell K R sa) (rot_shell K R sb) a b alpha beta) ja jb Hja Hjb).
+  now apply overlap_prim_rotation_covariant.
+Qed.
+Theorem kinetic_prim_rotation_matrix R la lb sa sb ja jb alpha beta :
+  orthogonal K R -> psum K alpha beta <> 0 ->
+  In ja (default_comps la) -> In jb (default_comps lb) ->
+  fsum (map (fun ia => fsum (map (fun ib =>
+      rep_mat K R ia ja * rep_mat K R ib jb
+      * kin_prim K (rot_shell K R sa) (rot_shell K R sb) ia ib alpha beta)
+    (default_comps lb))) (default_comps la))
+  = kin_prim K sa sb ja jb alpha beta.
+Proof.
+  intros HO Hp Hja Hjb.
+  apply (matrix_form R la lb (fun a b => kin_prim K sa sb a b alpha beta)
+           (fun a b => kin_prim K (rot_shell K R sa) (rot_shell K R sb) a b alpha beta) ja jb Hja Hjb).
+  now apply kinetic_prim_rotation_covariant.
 Qed.
 
 Hypothesis Hapx : forall x : F, fapx K x = x.
@@ -299,7 +326,24 @@ Proof.
     apply (fsum_mk_S K Kf).
 Qed.
 
-Theorem overlap_block_rotation_law :
+(* ---- the lifting, for any two-index kernel whose block entries are contracted primitive values ---- *)
+Section Generic.
+Variable blk : shell F -> shell F -> list (list (list (list F))).
+Variable prim : shell F -> shell F -> comp -> comp -> F -> F -> F.
+Hypothesis blk_correct : forall sa sb ma ia mb ib,
+  wf_shell sa -> wf_shell sb -> exps_ok K sa sb ->
+  (ma < nseg sa)%nat -> (ia < length (comps_of sa))%nat -> (mb < nseg sb)%nat -> (ib < length (comps_of sb))%nat ->
+  nth4 K ma ia mb ib (blk sa sb)
+  = contracted K sa sb (nth ia (comps_of sa) (0,0,0)%nat) (nth ib (comps_of sb) (0,0,0)%nat) ma mb
+      (prim sa sb (nth ia (comps_of sa) (0,0,0)%nat) (nth ib (comps_of sb) (0,0,0)%nat)).
+Hypothesis prim_matrix : forall R la lb sa sb ja jb alpha beta,
+  orthogonal K R -> psum K alpha beta <> 0 -> In ja (default_comps la) -> In jb (default_comps lb) ->
+  fsum (map (fun ia => fsum (map (fun ib =>
+      rep_mat K R ia ja * rep_mat K R ib jb * prim (rot_shell K R sa) (rot_shell K R sb) ia ib alpha beta)
+    (default_comps lb))) (default_comps la))
+  = prim sa sb ja jb alpha beta.
+
+Theorem block_rotation_law_generic :
   forall R, orthogonal K R -> forall la lb, exists Ma Mb : comp -> comp -> F,
     mono_rep K R la Ma /\ mono_rep K R lb Mb /\
     forall sa sb, s_l sa = la -> s_l sb = lb -> s_comps sa = [] -> s_comps sb = [] ->
@@ -309,12 +353,12 @@ Theorem overlap_block_rotation_law :
         (ja < length (default_comps la))%nat -> (jb < length (default_comps lb))%nat ->
         let cmp l i := nth i (default_comps l) (0, 0, 0)%nat in
         dfnorm K (cmp la ja) * dfnorm K (cmp lb jb)
-          * nth jb (nth mb (nth ja (nth ma (overlap_block K sa sb) []) []) []) 0
+          * nth jb (nth mb (nth ja (nth ma (blk sa sb) []) []) []) 0
         = FNum.fsum K (map (fun ia => FNum.fsum K (map (fun ib =>
             Ma (cmp la ia) (cmp la ja) * Mb (cmp lb ib) (cmp lb jb)
             * dfnorm K (cmp la ia) * dfnorm K (cmp lb ib)
             * nth ib (nth mb (nth ia (nth ma
-                 (overlap_block K (rot_shell K R sa) (rot_shell K R sb)) []) []) []) 0)
+                 (blk (rot_shell K R sa) (rot_shell K R sb)) []) []) []) 0)
             (seq 0 (length (default_comps lb))))) (seq 0 (length (default_comps la)))).
 Proof.
   intros R HO la lb. exists (rep_mat K R), (rep_mat K R).
@@ -332,35 +376,68 @@ Proof.
   assert (Ca' : comps_of sa' = default_comps la) by exact Ca.
   assert (Cb' : comps_of sb' = default_comps lb) by exact Cb.
   (* left-hand side *)
-  change (nth jb (nth mb (nth ja (nth ma (overlap_block K sa sb) []) []) []) 0)
-    with (nth4 K ma ja mb jb (overlap_block K sa sb)).
-  rewrite (overlap_block_correct K Kf Hapx H2 sa sb ma ja mb jb WSa WSb He Hma)
+  change (nth jb (nth mb (nth ja (nth ma (blk sa sb) []) []) []) 0)
+    with (nth4 K ma ja mb jb (blk sa sb)).
+  rewrite (blk_correct sa sb ma ja mb jb WSa WSb He Hma)
     by (rewrite ?Ca, ?Cb; assumption).
   rewrite Ca, Cb. fold (cmp la ja) (cmp lb jb).
-  transitivity (W sa sb ma mb (ovl_prim K sa sb (cmp la ja) (cmp lb jb)));
+  transitivity (W sa sb ma mb (prim sa sb (cmp la ja) (cmp lb jb)));
     [rewrite <- (contracted_W sa sb (cmp la ja) (cmp lb jb)); ring|].
   (* right-hand side *)
   symmetry.
   transitivity (fsum (mk (length (default_comps la)) (fun ia => rep_mat K R (cmp la ia) (cmp la ja) *
      W sa sb ma mb (fun x y => fsum (mk (length (default_comps lb)) (fun ib =>
-        rep_mat K R (cmp lb ib) (cmp lb jb) * ovl_prim K sa' sb' (cmp la ia) (cmp lb ib) x y)))))).
+        rep_mat K R (cmp lb ib) (cmp lb jb) * prim sa' sb' (cmp la ia) (cmp lb ib) x y)))))).
   { apply fsum_mk_ext. intros ia Hia. rewrite W_fsum, (fsum_mk_scale_l K Kf).
     apply fsum_mk_ext. intros ib Hib.
-    change (nth ib (nth mb (nth ia (nth ma (overlap_block K sa' sb') []) []) []) 0)
-      with (nth4 K ma ia mb ib (overlap_block K sa' sb')).
-    rewrite (overlap_block_correct K Kf Hapx H2 sa' sb' ma ia mb ib WSa' WSb' He' Hma)
+    change (nth ib (nth mb (nth ia (nth ma (blk sa' sb') []) []) []) 0)
+      with (nth4 K ma ia mb ib (blk sa' sb')).
+    rewrite (blk_correct sa' sb' ma ia mb ib WSa' WSb' He' Hma)
       by (rewrite ?Ca', ?Cb'; assumption).
     rewrite Ca', Cb'. fold (cmp la ia) (cmp lb ib).
     change (W sa sb ma mb) with (W sa' sb' ma mb).
     rewrite <- (contracted_W sa' sb' (cmp la ia) (cmp lb ib)).
-    change (fun x y : F => ovl_prim K sa' sb' (cmp la ia) (cmp lb ib) x y)
-      with (ovl_prim K sa' sb' (cmp la ia) (cmp lb ib)). ring. }
+    change (fun x y : F => prim sa' sb' (cmp la ia) (cmp lb ib) x y)
+      with (prim sa' sb' (cmp la ia) (cmp lb ib)). ring. }
   rewrite <- W_fsum. apply W_ext. intros alpha beta Ha Hb.
-  rewrite <- (overlap_prim_rotation_matrix R la lb sa sb (cmp la ja) (cmp lb jb) alpha beta HO)
+  rewrite <- (prim_matrix R la lb sa sb (cmp la ja) (cmp lb jb) alpha beta HO)
     by (try apply nth_In; try assumption; unfold psum; now apply Hex).
   rewrite (map_as_mk _ (default_comps la) (0, 0, 0)%nat). apply fsum_mk_ext. intros ia _.
   fold (cmp la ia). rewrite (map_as_mk _ (default_comps lb) (0, 0, 0)%nat), (fsum_mk_scale_l K Kf).
   apply fsum_mk_ext. intros ib _. fold (cmp lb ib). subst sa' sb'. ring.
+Qed.
+End Generic.
+
+Definition block_law (blk : shell F -> shell F -> list (list (list (list F)))) : Prop :=
+  forall R, orthogonal K R -> forall la lb, exists Ma Mb : comp -> comp -> F,
+    mono_rep K R la Ma /\ mono_rep K R lb Mb /\
+    forall sa sb, s_l sa = la -> s_l sb = lb -> s_comps sa = [] -> s_comps sb = [] ->
+      wf_coeffs sa -> wf_coeffs sb ->
+      (forall a b, In a (s_exps sa) -> In b (s_exps sb) -> a + b <> 0) ->
+      forall ma mb ja jb, (ma < nseg sa)%nat -> (mb < nseg sb)%nat ->
+        (ja < length (default_comps la))%nat -> (jb < length (default_comps lb))%nat ->
+        let cmp l i := nth i (default_comps l) (0, 0, 0)%nat in
+        dfnorm K (cmp la ja) * dfnorm K (cmp lb jb)
+          * nth jb (nth mb (nth ja (nth ma (blk sa sb) []) []) []) 0
+        = FNum.fsum K (map (fun ia => FNum.fsum K (map (fun ib =>
+            Ma (cmp la ia) (cmp la ja) * Mb (cmp lb ib) (cmp lb jb)
+            * dfnorm K (cmp la ia) * dfnorm K (cmp lb ib)
+            * nth ib (nth mb (nth ia (nth ma
+                 (blk (rot_shell K R sa) (rot_shell K R sb)) []) []) []) 0)
+            (seq 0 (length (default_comps lb))))) (seq 0 (length (default_comps la)))).
+
+Theorem overlap_block_rotation_law : block_law (overlap_block K).
+Proof.
+  unfold block_law. apply (block_rotation_law_generic (overlap_block K) (ovl_prim K)).
+  - intros. now apply (overlap_block_correct K Kf Hapx H2).
+  - intros. now apply overlap_prim_rotation_matrix.
+Qed.
+
+Theorem kinetic_block_rotation_law : block_law (kinetic_block K).
+Proof.
+  unfold block_law. apply (block_rotation_law_generic (kinetic_block K) (kin_prim K)).
+  - intros. now apply (kinetic_block_correct K Kf Hapx H2).
+  - intros. now apply kinetic_prim_rotation_matrix.
 Qed.
 
 End Block.
@@ -406,11 +483,9 @@ Qed.
 
 (* the block law re-evaluated on the list-level model (vm_compute, independent of the proof): every segment pair and
    every (p component, d component) *)
-Definition block_law_check (R : @mat3 Qc) (sa sb : shell Qc) (ma mb ja jb : nat) : bool :=
-  let la := s_l sa in let lb := s_l sb in
+Definition block_law_check (R : @mat3 Qc) (la lb : nat) (S S' : list (list (list (list Qc))))
+  (ma mb ja jb : nat) : bool :=
   let cmp l i := nth i (default_comps l) (0, 0, 0)%nat in
-  let S := overlap_block KQ sa sb in
-  let S' := overlap_block KQ (rot_shell KQ R sa) (rot_shell KQ R sb) in
   Qeq_bool
     (fmul KQ (fmul KQ (dfnorm KQ (cmp la ja)) (dfnorm KQ (cmp lb jb)))
        (nth jb (nth mb (nth ja (nth ma S []) []) []) (f0 KQ)))
@@ -420,9 +495,21 @@ Definition block_law_check (R : @mat3 Qc) (sa sb : shell Qc) (ma mb ja jb : nat)
                                   (dfnorm KQ (cmp la ia))) (dfnorm KQ (cmp lb ib)))
           (nth ib (nth mb (nth ia (nth ma S' []) []) []) (f0 KQ)))
         (seq 0 (length (default_comps lb))))) (seq 0 (length (default_comps la))))).
-Example block_law_computed :
-  forallb (fun R => forallb (fun ma => forallb (fun ja => forallb (fun jb =>
-     block_law_check R exP exD ma 0 ja jb) (seq 0 6)) (seq 0 3)) (seq 0 2)) [R345; Rimp] = true.
+(* all entries of the (contracted p, 2 segments) x d block, both rotations; the two blocks are evaluated once *)
+Definition block_law_all (blk : shell Qc -> shell Qc -> list (list (list (list Qc)))) : bool :=
+  forallb (fun R =>
+    let S := blk exP exD in let S' := blk (rot_shell KQ R exP) (rot_shell KQ R exD) in
+    forallb (fun ma => forallb (fun ja => forallb (fun jb =>
+      block_law_check R 1 2 S S' ma 0 ja jb) (seq 0 6)) (seq 0 3)) (seq 0 2)) [R345; Rimp].
+Example block_law_computed : block_law_all (overlap_block KQ) = true.
+Proof. vm_compute. reflexivity. Qed.
+Example kinetic_block_law_computed : block_law_all (kinetic_block KQ) = true.
+Proof. vm_compute. reflexivity. Qed.
+(* not vacuous: the kinetic block does change under the rotation *)
+Example kinetic_block_not_invariant :
+  Qeq_bool (nth 1 (nth 0 (nth 0 (nth 0 (kinetic_block KQ exP exD) []) []) []) (f0 KQ))
+           (nth 1 (nth 0 (nth 0 (nth 0 (kinetic_block KQ (rot_shell KQ R345 exP) (rot_shell KQ R345 exD)) []) []) [])
+                (f0 KQ)) = false.
 Proof. vm_compute. reflexivity. Qed.
 End Examples.
 
@@ -475,3 +562,11 @@ Proof.
   exists Ma, Mb. split; [exact A|]. split; [exact B|].
   intros sa sb Hla Hlb Hca Hcb _ _. exact (C sa sb Hla Hlb Hca Hcb).
 Qed.
+
+(* the same sentence for DiffOp.kinetic_block = KineticEnergyIntegral.construct_array_contraction *)
+Theorem kinetic_block_rotation_law_holds {F : Type} (K : Fops F) : is_field K ->
+  (forall x, fapx K x = x) -> (forall x y, fexp K (fadd K x y) = fmul K (fexp K x) (fexp K y)) ->
+  (forall c, dfnorm K c <> f0 K) -> fadd K (f1 K) (f1 K) <> f0 K ->
+  block_law K (kinetic_block K).
+Proof. intros Kf Hapx Hexp Hdf H2. exact (kinetic_block_rotation_law K Kf Hexp Hapx H2 Hdf). Qed.
+
